@@ -179,7 +179,7 @@ PROPS["C15"] = {
 PROPS["C02"] = {
     "technique": "property-based testing (rapid): generated epochs loaded in-process, every archived slot and signature queried over JSON-RPC (4 encodings) and gRPC (unary + Get stream) and compared with the generator's ground truth",
     "level_text": "1..6 generated epochs (including epoch 0 with the mainnet genesis archive; up to 6 so that the epoch count exceeds twice the search concurrency) are indexed with the real `index all`, loaded with NewEpochFromConfig into a MultiEpoch with search concurrency -1/0/1/2/NumCPU, and every block and every transaction is fetched through newMultiEpochHandler (getBlock, getTransaction, getBlockTime; encodings base58, base64, base64+zstd, json, default) and through the gRPC methods GetBlock, GetTransaction, GetBlockTime and the bidirectional Get stream. Slot, parent slot, block time, block height, blockhash, previous blockhash, transaction order, transaction bytes (decoded from the requested encoding), metadata fields / raw metadata bytes and rewards are compared with what the generator wrote. Every request runs under a hang detector: a request whose goroutine is parked on a channel / lock after 90 s is a violation (reported with its stack), one that is still running ends the run inconclusive. Exploration level.",
-    "level_note": "Blocks of this property have >= 1 entry; epochs without recorded transaction positions are compared as sets; slot 0 of epoch 0 (genesis special case) is compared on slot/transactions/blockhash only; jsonParsed needs the Rust FFI and is not covered. Trusted: solana-go, protobuf, zstd, reference IPLD encoder.",
+    "level_note": "Blocks of this property have >= 1 entry; epochs without recorded transaction positions are compared as sets; slot 0 of epoch 0 (genesis special case) is compared on slot/transactions/blockhash only; jsonParsed needs the Rust FFI and is not covered. The harness closes its epochs only after the straggling epoch searches of the last getTransaction have ended (closing under them is the open C09 finding epoch-closed-under-inflight-read, not judged here). Trusted: solana-go, protobuf, zstd, reference IPLD encoder.",
     "rule": ("rapid draws 1..3 or 3..6 epoch specs (distinct epoch numbers; required class epochs>2*concurrency), concurrency and an encoding rotation; every block and transaction of every loaded epoch is queried. non-trivial = >=2 epochs loaded and (a block with >=2 transactions over >=2 entries or a transaction with multi-frame metadata); distinct by case hash"),
     "assumptions": ["the handler is called in-process through fasthttp.RequestCtx.Init (no network stack)"],
     "units": [
@@ -251,7 +251,7 @@ C09_MONITOR = [
 PROPS["C09"] = {
     "technique": "generated concurrent programs (rapid) run as stress schedules with progress/consistency oracles + dynamic lock-order monitoring of single-threaded generated operation lists on a build with an instrumented epoch-set mutex",
     "level_text": "Stress: rapid generates programs of 2..12 reader goroutines (getSlot, getFirstAvailableBlock, getBlock, getBlockTime, getTransaction, getSignaturesForAddress, getVersion, epoch listing, gRPC GetBlock) and 1..3 writer goroutines (AddEpoch/RemoveEpoch/ReplaceEpoch on volatile epochs with shared Epoch objects; or ReplaceOrAddEpoch/RemoveEpochByConfigFilepath with freshly loaded epochs) at GOMAXPROCS 2/4/16, with two stable epochs loaded or with a single one (volatile epochs toggled 200 times per writer operation around it, readers repeating their queries 10..100 times, so that the epoch count passes through 1 while queries run); every goroutine must finish (a 12 s stall with goroutines parked in sync.RWMutex is reported as deadlock with their stacks), every epoch list must be duplicate-free, newest first, a superset of the stable epochs, and every query addressed to a stable epoch must equal the idle server's answer. Monitor: the same operations run single-threaded against a build in which MultiEpoch.mu is replaced (AST rewrite) by an instrumented RW mutex that reports a read acquisition by a goroutine already holding the read lock, or a write acquisition under a read lock - the acquisition orders that sync.RWMutex documents as deadlock-prone - independent of the schedule. Exploration level.",
-    "level_note": "Schedules are sampled, not enumerated; the monitor covers the lock acquisitions executed by the generated operations (counted in class lock-acquisitions-observed), not unexecuted call-graph paths. In class B (old epoch closed on replace) readers only issue slot-routed queries to stable epochs and epoch listings.",
+    "level_note": "Schedules are sampled, not enumerated; the monitor covers the lock acquisitions executed by the generated operations (counted in class lock-acquisitions-observed), not unexecuted call-graph paths. In class B (old epoch closed on replace) readers only issue slot-routed queries to stable epochs and epoch listings: queries that consult an epoch while it is being closed fault the process (open finding epoch-closed-under-inflight-read, probed in a child process by shard 0 of the stress unit and reported as KNOWN-FINDING while it reproduces).",
     "rule": ("stress: rapid draws readers x ops, writers x ops, GOMAXPROCS, class A/B; non-trivial = >=2 readers, >=1 writer and an epoch-listing operation that overlapped a running writer (measured); monitor: 1..40 ops per list, non-trivial = >=2 ops; distinct by case hash"),
     "assumptions": ["a 12 s stall with goroutines parked in RWMutex.RLock/Lock is a deadlock (each operation takes milliseconds)"],
     "units": [
